@@ -33,7 +33,7 @@ Distinct(S) == {l \in S : Cardinality(SeqRange(l)) = Len(l)}
 LevelCandidates(nz) ==
     CASE LevelLists = "single" -> {<<nz \div 2>>, <<nz - 1>>}
       [] LevelLists = "mid"    -> {<<nz \div 2>>}
-      [] LevelLists = "asc"    -> {<<nz \div 2>>, <<nz - 1>>, <<0, nz - 1>>, <<1, nz \div 2, nz - 1>>}
+      [] LevelLists = "asc"    -> {<<nz \div 2>>, <<nz - 1>>, <<0, nz - 1>>, <<(IF nz \div 2 = 1 THEN 0 ELSE 1), nz \div 2, nz - 1>>}
       [] LevelLists = "mixed"  -> {<<nz \div 2>>, <<nz - 1>>, <<0, nz - 1>>, <<nz - 1, 1>>, <<1, nz \div 2, nz - 1>>, <<nz \div 2, 0, nz - 1, 1>>}
       [] LevelLists = "ends"   -> {<<0>>, <<nz - 1>>, <<0, nz - 1>>, <<nz - 1, 0>>}
       [] LevelLists = "pairs"  -> InjSeqs(nz, 2)
